@@ -1,8 +1,8 @@
 ----------------------------- MODULE MC_Cluster -----------------------------
 (* Model-checking wrapper for Cluster.tla: the bounded alphabet of peer lists *)
-(* and event batches, and the next-state relation in which the cluster's     *)
-(* truth changes on its own (TruthChange) and the driver catches up through  *)
-(* refreshes, events and connection changes.                                  *)
+(* and event batches; every history of at most MaxLevel - 1 steps is          *)
+(* explored (refreshes with any new list, failing refreshes, event batches,   *)
+(* nodes failing / recovering, control connection cut / re-established).      *)
 EXTENDS Cluster
 
 CONSTANTS MaxLen,     \* rows per peer list
@@ -30,14 +30,17 @@ Batches ==
 
 Init == InitWith(<<>>)
 
-TruthChange == \E l \in Lists : l # truth /\ truth' = l /\ UNCHANGED <<g, d, nref>>
-
+\* One step = one driver-visible action; what the cluster reports may change together with the
+\* actions that make the driver look at it (refresh, topology event, control reconnection).
 Next ==
-  \/ TruthChange
-  \/ \E f \in {"none", "local", "peers"} : Refresh(truth, f)
+  \/ \E l \in Lists : Refresh(l, "none")
+  \/ \E f \in {"local", "peers"} : \E l \in {truth, <<>>} : Refresh(l, f)
   \/ \E b \in Batches : Events(truth, b)
-  \/ \E a \in AllAddrs : NodeFail(truth, a) \/ NodeRecover(truth, a)
-  \/ ControlLost(truth)
+  \/ \E l \in Lists : Events(l, <<Ev("NEW_NODE", C0addr)>>)
+  \/ \E a \in AllAddrs : NodeFail(truth, a)
+  \/ \E a \in Addrs : NodeRecover(truth, a)
+  \/ \E l \in Lists : NodeRecover(l, C0addr)
+  \/ \E l \in Lists : ControlLost(l)
 
 Spec == Init /\ [][Next]_vars
 Bounded == TLCGet("level") <= MaxLevel
